@@ -65,6 +65,28 @@ def sequential_streams(ctx):
 SEQUENTIAL_PARTS.append(sequential_streams)
 
 
+def sequential_corpus(ctx):
+    """Fixed witness histories (corpus/fs-witness.cases): model agreement, and no PANIC/DEADLOCK outcome."""
+    import os
+    from .c01 import fs_corpus_part
+    fs_corpus_part(ctx)
+    for name in ("fs-corpus", "orefa-corpus"):
+        fo = os.path.join(ctx.dir, name + ".observed")
+        fc = os.path.join(ctx.dir, name + ".cases")
+        if not os.path.exists(fo):
+            continue
+        for c, o in zip(open(fc), open(fo)):
+            hit = _first_bad_step(o.rstrip("\n"))
+            if hit:
+                parts = c.rstrip("\n").split(" | ")
+                ctx.violation("seq-" + name, "a call of a fixed witness history did not return normally (%s)" % hit[1],
+                              {"engine": "c07-seq", "seq_stream": {"name": name, "harness": name.split("-")[0], "driver": name.split("-")[0]},
+                               "case": " | ".join(parts[:hit[0] + 2]), "outcome": hit[1]})
+
+
+SEQUENTIAL_PARTS.append(sequential_corpus)
+
+
 def check_C07(ctx):
     ctx.level = "proof"
     ctx.coverage["level_claimed"] = {
